@@ -110,7 +110,9 @@ Section CrashProofs.
   Proof.
     destruct (is_wal_op o) eqn:W.
     - destruct o; try discriminate W; cbn [db_step].
-      + destruct (last_or_begin (db_tm st)) as [tx t1]. cbn [fst db_w]. rewrite wsync_seq. apply wlog_cp_seq_mono.
+      + destruct (last_or_begin (db_tm st)) as [tx t1]. cbn [fst db_w]. rewrite wsync_seq.
+        pose proof (wlog_seq_mono crc enc cfg (db_w st) (TxCommit tx)).
+        pose proof (wlog_cp_seq_mono crc enc cfg (wlog crc enc cfg (db_w st) (TxCommit tx)) tx (s_epoch (db_store st))). lia.
       + cbn. lia.
       + cbn. lia.
     - rewrite (db_step_generic crc enc cfg st o W).
@@ -124,17 +126,17 @@ Section CrashProofs.
     specialize (IH st1). destruct (run_ops crc enc cfg st1 r) as [st2 xs]. cbn [fst] in *. lia.
   Qed.
 
+  Definition no_cp (os : list op) : bool := forallb (fun o => negb (is_cp_op o)) os.
+
   Lemma db_step_winv cfg st log o :
+    is_cp_op o = false ->
     WInv st log -> w_seq (db_w (fst (db_step crc enc cfg st o))) = 0 -> Forall ok (step_logs st o) ->
     WInv (fst (db_step crc enc cfg st o)) (log ++ step_logs st o) /\ no_commit (step_logs st o) = true.
   Proof.
-    intros (S & M & OK) Hseq Hok.
+    intros Hcp (S & M & OK) Hseq Hok.
     destruct (is_wal_op o) eqn:W.
     - destruct o; try discriminate W; cbn [db_step Classes.step_logs] in *.
-      + destruct (last_or_begin (db_tm st)) as [tx t1]. cbn [fst db_w db_store] in *. rewrite wsync_seq in Hseq.
-        destruct (wcheckpoint_single crc enc cfg (db_w st) log tx _ S Hseq) as [S1 M1].
-        destruct (wsync_single crc enc _ _ S1) as [S2 M2].
-        split; [|reflexivity]. split; [exact S2|]. split; [cbn [db_w]; rewrite M2; exact M1|apply Forall_app; split; assumption].
+      + discriminate Hcp.
       + cbn [fst db_w] in Hseq. rewrite wrotate_seq, (single_seq crc enc _ _ S) in Hseq. lia.
       + cbn [fst db_w]. destruct (wsync_single crc enc _ _ S) as [S1 M1]. rewrite app_nil_r.
         split; [|reflexivity]. split; [exact S1|]. split; [cbn [db_w]; rewrite M1; exact M|exact OK].
@@ -148,14 +150,16 @@ Section CrashProofs.
   Qed.
 
   Lemma run_ops_winv cfg os : forall st log,
+    no_cp os = true ->
     WInv st log -> w_seq (db_w (fst (run_ops crc enc cfg st os))) = 0 -> Forall ok (ops_logs crc enc cfg st os) ->
     WInv (fst (run_ops crc enc cfg st os)) (log ++ ops_logs crc enc cfg st os)
     /\ no_commit (ops_logs crc enc cfg st os) = true.
   Proof.
-    induction os as [|o r IH]; intros st log I Hseq Hok.
+    induction os as [|o r IH]; intros st log Hncp I Hseq Hok.
     - cbn. rewrite app_nil_r. auto.
-    - cbn [run_ops Classes.ops_logs] in *. apply Forall_app in Hok as [Hok1 Hok2].
-      pose proof (db_step_winv cfg st log o I) as SW.
+    - cbn [run_ops Classes.ops_logs no_cp forallb] in *. apply andb_prop in Hncp as [Hcp Hncp]. apply negb_true_iff in Hcp.
+      apply Forall_app in Hok as [Hok1 Hok2].
+      pose proof (db_step_winv cfg st log o Hcp I) as SW.
       pose proof (run_ops_seq_mono cfg r (fst (db_step crc enc cfg st o))) as MM.
       pose proof (db_step_seq_mono cfg st o) as M0.
       destruct (db_step crc enc cfg st o) as [st1 x]. cbn [fst] in *.
@@ -163,7 +167,7 @@ Section CrashProofs.
       assert (H1 : w_seq (db_w st1) = 0).
       { destruct I as (S & _). pose proof (single_seq crc enc _ _ S). lia. }
       destruct (SW H1 Hok1) as [I1 N1].
-      specialize (IH st1 (log ++ step_logs st o) I1). rewrite RO in IH. cbn [fst] in IH.
+      specialize (IH st1 (log ++ step_logs st o) Hncp I1). rewrite RO in IH. cbn [fst] in IH.
       destruct (IH Hseq Hok2) as [I2 N2]. rewrite <- app_assoc in I2. split; [exact I2|].
       rewrite no_commit_app, N1, N2. reflexivity.
   Qed.
@@ -249,7 +253,11 @@ Section CrashProofs.
     intros H Hseq. destruct (is_wal_op o) eqn:W.
     - destruct o; try discriminate W; cbn [db_step] in *.
       + destruct (last_or_begin (db_tm st)) as [tx t1]. cbn [fst db_w] in *. rewrite wsync_seq in Hseq.
-        apply wsync_syn, wcheckpoint_syn; assumption.
+        assert (H1 : w_seq (wlog crc enc cfg (db_w st) (TxCommit tx)) = 0).
+        { pose proof (wlog_seq_mono crc enc cfg (db_w st) (TxCommit tx)).
+          pose proof (wlog_cp_seq_mono crc enc cfg (wlog crc enc cfg (db_w st) (TxCommit tx)) tx (s_epoch (db_store st))).
+          destruct H as (f & _ & Hs & _). lia. }
+        apply wsync_syn, wcheckpoint_syn; [apply wlog_syn; assumption|exact Hseq].
       + cbn [fst db_w] in Hseq. rewrite wrotate_seq in Hseq. destruct H as (f & _ & Hs & _). lia.
       + cbn [fst db_w]. apply wsync_syn, H.
     - rewrite (db_step_generic crc enc cfg st o W) in *.
@@ -270,6 +278,13 @@ Section CrashProofs.
     apply IH; [apply SW|exact Hseq]. destruct H as (f & _ & Hs & _). lia.
   Qed.
 
+  (** cutting a torn tail leaves the file fsynced to its (new) end *)
+  Lemma cut_torn_synced f : f_synced f = lenZ (f_bytes f) -> f_synced (cut_torn crc f) = lenZ (f_bytes (cut_torn crc f)).
+  Proof.
+    intros H. unfold cut_torn. destruct (intact_len crc (f_bytes f) <? length (f_bytes f))%nat eqn:E; [|exact H].
+    apply Nat.ltb_lt in E. cbn [f_synced f_bytes]. unfold lenZ. rewrite firstn_length. lia.
+  Qed.
+
   Lemma close_reopen_full cfg st1 lo st2 :
     syn_ok (db_w st1) lo -> w_seq (db_w (db_close crc enc cfg st1)) = 0 ->
     db_open crc dec (end_disk crc enc cfg st1 EClose) = ROk st2 -> syn_full (db_w st2).
@@ -287,8 +302,9 @@ Section CrashProofs.
     unfold db_open in DO. destruct (recover crc dec (wdrop ws)); [|discriminate]. injection DO as <-. cbn [db_w].
     destruct (set_active_single ws f (file_flush (active ws)) Hf Hs) as (A1 & A2 & A3).
     rewrite (active_single ws [] f Hf Hs) in A1.
-    unfold wdrop. rewrite (active_single ws [] f Hf Hs). unfold wopen. rewrite !A1. cbn [max_seq fold_right fst]. rewrite Z.max_id, get_single.
-    exists (file_flush f). cbn [w_disk w_seq set_files d_files file_flush f_synced f_bytes]. auto.
+    unfold wdrop. rewrite (active_single ws [] f Hf Hs). unfold wopen. rewrite !A1. cbn [max_seq fold_right fst]. rewrite Z.max_id, get_single, put_single.
+    exists (cut_torn crc (file_flush f)). cbn [w_disk w_seq set_files d_files]. split; [reflexivity|]. split; [reflexivity|].
+    apply cut_torn_synced. cbn [file_flush f_synced f_bytes]. exact Hb.
   Qed.
 
   (** * the crash image: file 0 cut to its first [n] bytes *)
@@ -333,14 +349,14 @@ Section CrashProofs.
       of the directory (each file keeps a prefix that contains its fsynced bytes, a never-fsynced
       file may vanish) opens to the store of the last close *)
   Lemma crash_gen cfg st log os d' :
-    Inv crc enc dec st log -> pend log = [] -> syn_full (db_w st) ->
+    Inv crc enc dec st log -> pend log = [] -> syn_full (db_w st) -> no_cp os = true ->
     w_seq (db_w (fst (run_ops crc enc cfg st os))) = 0 ->
     Forall ok (ops_logs crc enc cfg st os) ->
     crash (wdrop (db_w (fst (run_ops crc enc cfg st os)))) d' ->
     exists st2, db_open crc dec d' = ROk st2 /\ db_store st2 = db_store st.
   Proof.
-    intros (S & M & ES & OK) P SF Hseq Hok [CF CM].
-    destruct (run_ops_winv cfg os st log (conj S (conj M OK)) Hseq Hok) as [(S1 & M1 & OK1) NC].
+    intros (S & M & ES & OK) P SF Hncp Hseq Hok [CF CM].
+    destruct (run_ops_winv cfg os st log Hncp (conj S (conj M OK)) Hseq Hok) as [(S1 & M1 & OK1) NC].
     set (st1 := fst (run_ops crc enc cfg st os)) in *. set (rs := ops_logs crc enc cfg st os) in *.
     (* the synced length of the file at crash time covers the frames of [log] *)
     destruct (syn_full_ok _ SF) as (f0 & Hf0 & SO).
@@ -400,9 +416,9 @@ Section CrashProofs.
     apply Forall_app in Hok as [Hok1 Hok2]. apply Forall_app in Hok2 as [Hok2 Hok3].
     assert (Kall : kclean fl = true /\ w_seq (db_w (db_close crc enc cfg st1)) = w_seq (db_w st1)).
     { destruct (db_open crc dec (end_disk crc enc cfg st1 EClose)); cbn [forallb] in Hk; apply andb_prop in Hk as [Hk1 _];
-        apply kclean_false in Hk1 as (K1 & K2 & K3 & K4); cbn [k_cp k_rm k_sess k_rot] in *;
+        apply kclean_false in Hk1 as (K2 & K3 & K4); cbn [k_cp k_rm k_sess k_rot] in *;
         apply orb_false_elim in K4 as [K4 K5]; apply negb_false_iff, Z.eqb_eq in K5;
-        (split; [unfold kclean; rewrite K1, K2, K3, K4; reflexivity|exact K5]). }
+        (split; [unfold kclean; rewrite K2, K3, K4; reflexivity|exact K5]). }
     destruct Kall as [Kfl K5].
     destruct (scan_inv crc enc dec cfg os st false k0 log I (fun _ => P)) as [_ (log1 & I1)]; [rewrite SC; exact Kfl|exact Hok1|].
     rewrite SC in I1. cbn [snd] in I1.
@@ -420,21 +436,69 @@ Section CrashProofs.
   Lemma syn_full_fresh : syn_full (db_w db_fresh).
   Proof. exists empty_file. repeat split. Qed.
 
-  (** T crash_recovers_last_close *)
+  (** T crash_recovers_last_close: a session without an explicit checkpoint *)
   Lemma crash_recovers_last_close_l cfg ss st os d' :
     no_crash ss = true -> forallb kclean (hist_flags crc enc dec cfg db_fresh ss) = true ->
     snd (run_sessions crc enc dec cfg db_fresh ss) = ROk st ->
     Forall ok (hist_logs crc enc dec cfg db_fresh ss ++ ops_logs crc enc cfg st os) ->
+    no_cp os = true ->
     w_seq (db_w (fst (run_ops crc enc cfg st os))) = w_seq (db_w st) ->
     crash (wdrop (db_w (fst (run_ops crc enc cfg st os)))) d' ->
     exists st2, db_open crc dec d' = ROk st2 /\ db_store st2 = db_store st.
   Proof.
-    intros Hc Hk Hr Hok Hseq Hcr. apply Forall_app in Hok as [Hok1 Hok2].
+    intros Hc Hk Hr Hok Hncp Hseq Hcr. apply Forall_app in Hok as [Hok1 Hok2].
     destruct (inv_fresh crc enc dec) as [I0 P0].
     destruct (clean_history_inv cfg ss db_fresh [] I0 P0 syn_full_fresh Hc Hk Hok1) as (st' & log' & R' & I' & P' & SF').
     rewrite Hr in R'. injection R' as <-.
     pose proof I' as (S' & _). pose proof (single_seq crc enc _ _ S') as Z'.
-    apply (crash_gen cfg st log' os d' I' P' SF'); [rewrite Hseq; exact Z'|exact Hok2|exact Hcr].
+    apply (crash_gen cfg st log' os d' I' P' SF' Hncp); [rewrite Hseq; exact Z'|exact Hok2|exact Hcr].
+  Qed.
+
+  (** T crash_recovers_last_checkpoint: the session ran clean operations [os1], took an explicit
+      checkpoint, then did anything but another checkpoint: every crash image opens to the store
+      as it was at the checkpoint *)
+  Lemma crash_recovers_last_checkpoint_l cfg ss st os1 os2 d' :
+    no_crash ss = true -> forallb kclean (hist_flags crc enc dec cfg db_fresh ss) = true ->
+    snd (run_sessions crc enc dec cfg db_fresh ss) = ROk st ->
+    let sta := fst (run_ops crc enc cfg st os1) in
+    let st1 := fst (db_step crc enc cfg sta OCheckpoint) in
+    kclean (fst (scan crc enc cfg st false os1 k0)) = true ->
+    Forall ok (hist_logs crc enc dec cfg db_fresh ss ++ ops_logs crc enc cfg st os1 ++ step_logs sta OCheckpoint
+               ++ ops_logs crc enc cfg st1 os2) ->
+    no_cp os2 = true ->
+    w_seq (db_w (fst (run_ops crc enc cfg st1 os2))) = w_seq (db_w st) ->
+    crash (wdrop (db_w (fst (run_ops crc enc cfg st1 os2)))) d' ->
+    exists st2, db_open crc dec d' = ROk st2 /\ db_store st2 = db_store st1.
+  Proof.
+    intros Hc Hk Hr sta st1 Hk1 Hok Hncp Hseq Hcr.
+    apply Forall_app in Hok as [Hok0 Hok]. apply Forall_app in Hok as [Hok1 Hok]. apply Forall_app in Hok as [Hokc Hok2].
+    destruct (inv_fresh crc enc dec) as [I0 P0].
+    destruct (clean_history_inv cfg ss db_fresh [] I0 P0 syn_full_fresh Hc Hk Hok0) as (st' & log' & R' & I' & P' & SF').
+    rewrite Hr in R'. injection R' as <-.
+    pose proof I' as (S' & _). pose proof (single_seq crc enc _ _ S') as Z'.
+    (* the sequence number never moved *)
+    pose proof (run_ops_seq_mono cfg os1 st) as M1. fold sta in M1.
+    pose proof (db_step_seq_mono cfg sta OCheckpoint) as M2. fold st1 in M2.
+    pose proof (run_ops_seq_mono cfg os2 st1) as M3.
+    assert (Za : w_seq (db_w sta) = 0) by lia. assert (Z1 : w_seq (db_w st1) = 0) by lia.
+    (* the invariant after os1, then after the checkpoint *)
+    destruct (scan_inv crc enc dec cfg os1 st false k0 log' I' (fun _ => P') Hk1 Hok1) as [_ (loga & Ia)].
+    rewrite (scan_state crc enc cfg os1 st false k0) in Ia. fold sta in Ia.
+    destruct (db_step crc enc cfg sta OCheckpoint) as [st1' res] eqn:E. cbn [fst] in st1. subst st1.
+    assert (HS : (w_seq (db_w st1') =? w_seq (db_w sta)) = true) by (apply Z.eqb_eq; lia).
+    destruct (db_step_inv crc enc dec cfg sta loga OCheckpoint st1' res true Ia (fun H => False_ind _ (Bool.diff_true_false H)) E
+                eq_refl eq_refl HS Hokc) as (log1 & I1 & P1).
+    specialize (P1 eq_refl).
+    (* fsynced to the end: the checkpoint syncs last *)
+    assert (SF1 : syn_full (db_w st1')).
+    { destruct (syn_full_ok _ SF') as (f0 & _ & SO). pose proof (run_ops_syn cfg os1 st _ SO Za) as SOa. fold sta in SOa.
+      cbn [db_step] in E. destruct (last_or_begin (db_tm sta)) as [tx t1]. injection E as <- <-. cbn [db_w] in *.
+      rewrite wsync_seq in Z1.
+      assert (H1 : w_seq (wlog crc enc cfg (db_w sta) (TxCommit tx)) = 0).
+      { pose proof (wlog_seq_mono crc enc cfg (db_w sta) (TxCommit tx)).
+        pose proof (wlog_cp_seq_mono crc enc cfg (wlog crc enc cfg (db_w sta) (TxCommit tx)) tx (s_epoch (db_store sta))). lia. }
+      apply (wsync_syn _ _ (wcheckpoint_syn cfg _ tx _ _ (wlog_syn cfg _ _ _ SOa H1) Z1)). }
+    apply (crash_gen cfg st1' log1 os2 d' I1 P1 SF1 Hncp); [lia|exact Hok2|exact Hcr].
   Qed.
 End CrashProofs.
 
